@@ -113,6 +113,44 @@ func c08Check(c *core.Ctx, b []byte, kind string) {
 	if err := again.UnmarshalBinary(out); err != nil || core.Dump(again) != core.Dump(phy) {
 		c.Violate(fmt.Sprintf("C08|redecode-differs|mtype=%d", mt), "decode(encode(decode(%x))) differs (%v)", b, err)
 	}
+	// what a network server does between receiving and forwarding: verify the MIC, log the frame
+	var key lorawan.AES128Key
+	for i := range key {
+		key[i] = byte(i*37) ^ b[i%len(b)]
+	}
+	var rx lorawan.PHYPayload
+	if rx.UnmarshalBinary(append([]byte{}, b...)) != nil {
+		return
+	}
+	step := ""
+	if p, msg := core.Guard(func() {
+		switch mt {
+		case 2, 4:
+			step = "ValidateUplinkDataMIC"
+			rx.ValidateUplinkDataMIC(lorawan.LoRaWAN1_0, 0, 0, 0, key, key)
+			rx.ValidateUplinkDataMIC(lorawan.LoRaWAN1_1, 7, 2, 3, key, key)
+			rx.ValidateUplinkDataMICF(key)
+		case 3, 5:
+			step = "ValidateDownlinkDataMIC"
+			rx.ValidateDownlinkDataMIC(lorawan.LoRaWAN1_0, 0, key)
+			rx.ValidateDownlinkDataMIC(lorawan.LoRaWAN1_1, 9, key)
+		case 0, 6:
+			step = "ValidateUplinkJoinMIC"
+			rx.ValidateUplinkJoinMIC(key)
+		case 1:
+			step = "ValidateDownlinkJoinMIC"
+			rx.ValidateDownlinkJoinMIC(lorawan.JoinRequestType, lorawan.EUI64{1, 2, 3, 4, 5, 6, 7, 8}, 77, key)
+		}
+		rx.MarshalText()
+		rx.MarshalJSON()
+	}); p {
+		c.Violate("C08|verify-panic|"+step+"|"+core.PanicSite(msg), "%x: %s", b, short(msg, 300))
+		return
+	}
+	c.Eval(1)
+	if fwd, err := rx.MarshalBinary(); err != nil || !bytes.Equal(fwd, b) {
+		c.Violate(fmt.Sprintf("C08|changed-by-verification|mtype=%d", mt), "received %x; after %s / MarshalText / MarshalJSON the frame re-encodes to %x (err %v)", b, step, fwd, err)
+	}
 }
 
 func runC08(c *core.Ctx) {
